@@ -93,6 +93,67 @@ func checkC20(c *Ctx) {
 		return
 	}
 	rc := runCalls[0]
+	// RUN-ERROR: a run error is reported instead of output — everything runScript does after script.Run on its way
+	// to a nil return (reading the point, printing) is dominated by the test that Run's own result is nil, and the
+	// other edge of that test returns a non-nil error
+	{
+		tested := func(in ssa.Instruction) bool {
+			for _, ec := range factsAt(in) {
+				bo, ok := ec.Cond.(*ssa.BinOp)
+				if !ok || bo.X != ssa.Value(rc) || !isNilConst(bo.Y) {
+					continue
+				}
+				if (bo.Op == token.NEQ && !ec.Pol) || (bo.Op == token.EQL && ec.Pol) {
+					return true
+				}
+			}
+			return false
+		}
+		n, bad := 0, ""
+		allInstrs(rs, func(in ssa.Instruction) {
+			if in.Block() == rs.Recover || !reachableFrom(rc, in) {
+				return
+			}
+			switch x := in.(type) {
+			case *ssa.Return:
+				if retError(x) == "nonnil" {
+					return
+				}
+			case *ssa.Call:
+				if x.Call.IsInvoke() && (x.Call.Method.Name() == "Infof" || x.Call.Method.Name() == "Info") {
+					break
+				}
+				return
+			default:
+				return
+			}
+			n++
+			if !tested(in) && bad == "" {
+				bad = fmt.Sprintf("%T at %s is reached whether or not script.Run returned an error", in, t.Pos(in.Pos()))
+			}
+		})
+		// the failing edge returns an error
+		okFail := false
+		allInstrs(rs, func(in ssa.Instruction) {
+			iff, ok := in.(*ssa.If)
+			if !ok {
+				return
+			}
+			bo, ok := iff.Cond.(*ssa.BinOp)
+			if !ok || bo.X != ssa.Value(rc) || !isNilConst(bo.Y) {
+				return
+			}
+			fail := iff.Block().Succs[0]
+			if bo.Op == token.EQL {
+				fail = iff.Block().Succs[1]
+			}
+			if ret, isR := fail.Instrs[len(fail.Instrs)-1].(*ssa.Return); isR && retError(ret) == "nonnil" {
+				okFail = true
+			}
+		})
+		r.Ob("RUN-ERROR", "runScript prints and succeeds only when script.Run returned no error", t.Pos(rc.Pos()), n > 0 && bad == "" && okFail,
+			fmt.Sprintf("%d output calls / success returns after the run, each dominated by `<result of script.Run> == nil`; failing edge returns an error: %v. %s", n, okFail, bad))
+	}
 	// the point passed to Run
 	ptArg := unwrapIface(rc.Call.Args[1])
 	// which Point map fields are replaced as a whole by anything reachable from Script.Run?
